@@ -90,8 +90,9 @@ def find_calls(src, fname):
 
 
 class Resolver:
-    def __init__(self, src):
+    def __init__(self, src, extern_names=()):
         self.src = src
+        self.extern_names = set(extern_names)      # `extern char *X;` of chibicc.h: file names set by the driver
         self.funcs = functions(src)
         self.arrays = {}
         for m in re.finditer(r'static\s+char\s*\*\s*(argreg\d+)\s*\[\]\s*=\s*\{([^}]*)\}', src):
@@ -165,6 +166,10 @@ class Resolver:
         if re.fullmatch(r'cast_table\[\w+\]\[\w+\]', expr):
             return 'CAST'
         if SYM_ARGS.match(expr):
+            return 'SYM'
+        if expr in self.extern_names:
+            # a file name kept in a global of the driver (`extern char *base_file;` in chibicc.h, printed in `.file "%s"`): text
+            # chosen by the user like a symbol, never a register or mnemonic
             return 'SYM'
         if re.fullmatch(r'\w+', expr):
             f = self.enclosing(pos)
@@ -262,7 +267,9 @@ def generate(repo):
     src = strip_comments(raw)
     gp = c_int(must(r'^\s*#\s*define\s+GP_MAX\s+(\d+)\s*$', src, '#define GP_MAX', re.M).group(1))
     fp = c_int(must(r'^\s*#\s*define\s+FP_MAX\s+(\d+)\s*$', src, '#define FP_MAX', re.M).group(1))
-    R = Resolver(src)
+    hdr = strip_comments(read(repo, 'chibicc.h'))
+    externs = set(re.findall(r'^\s*extern\s+char\s*\*\s*(\w+)\s*;', hdr, re.M))
+    R = Resolver(src, externs)
     templates = set()
     n_println = 0
     asm_sites = 0
@@ -271,6 +278,8 @@ def generate(repo):
         n_println += 1
         fmt = unescape(m.group(1))
         args = split_args(m.group(2)[1:]) if m.group(2) else []
+        if any(a.strip() in externs for a in args) and not fmt.lstrip().startswith('.'):
+            raise ExtractError(f'println {fmt!r}: a global string of the driver is printed outside an assembler directive')
         # walk the conversions
         pieces = re.split(r'(%%|%[+-]?(?:l|L|ll)?[dufxs])', fmt)
         alts = ['']
